@@ -30,7 +30,7 @@ LEVEL_TEXT = ("Lean theorems for all stored-record maps, outcome scripts, lifecy
 THEOREMS = [("Kopf.Props.C02", "Kopf.C02." + n) for n in [
     "no_rerun", "retry_kwarg", "invoked_selected_awake", "closed_iff_all_finished", "closed_purges",
     "closed_purges_skip", "closed_purges_subrefs", "finished_persists", "final_outcome_recorded", "noExtras_preserved",
-    "finished_never_invoked", "once_per_cycle", "stale_view_reruns"]]
+    "finished_never_invoked", "once_per_cycle", "finished_never_invoked_varying", "once_per_cycle_varying", "stale_view_reruns"]]
 TIE_THEOREMS = [("Kopf.Tie.C02", "Kopf.C02.Tie." + n) for n in [
     "finished_eq", "sleeping_eq", "awakened_eq", "success_eq", "failure_eq", "one_by_one_eq", "all_at_once_eq"]]
 RULE = ("seeded scenarios: 1-4 change handlers (create/update/delete/resume, optional sub-handlers), outcome scripts over "
@@ -162,7 +162,8 @@ def gen_scenario(rng: Any, i: int) -> dict:
         if rng.random() < 0.35:
             timeline.append([t, "edit", "a", {"metadata": {"labels": {"l": rng.choice(["0", "1"])}}}])
         else:
-            timeline.append([t, "edit", "a", {"spec": {"x": n + 1}}])
+            # small value set: a change is sometimes reverted to the last-handled state while handlers retry
+            timeline.append([t, "edit", "a", {"spec": {"x": rng.choice([0, 1, 2, n + 1])}}])
     if rng.random() < 0.5:
         t += rng.choice([0.5, 3.0, 9.0])
         timeline.append([t, "delete", "a"])
